@@ -11,7 +11,7 @@
 (* raised.  `obs` is a function of `hist` (no extra states): the answer of *)
 (* every revision query, printed by TLC with every state of a behaviour.   *)
 (***************************************************************************)
-EXTENDS ZHistory
+EXTENDS ZPackOps
 
 CONSTANTS Kind,        \* "file" | "mapping"
           NOid,        \* oids are 0..NOid-1 (0 = root)
@@ -31,11 +31,13 @@ VARIABLES hist,        \* committed history
           clock,       \* wall clock, seconds
           maxOid,      \* oid counter
           issued,      \* ghost: oids handed out by new_oid since open
+          packed,      \* time of the last pack (0: never)
+          ltid,        \* what lastTransaction() reports (_ltid: not recomputed by a pack)
           begun,       \* number of transactions begun so far (bounds the model: aborted ones count)
           res,         \* outcome of the last call
           obs          \* derived: ObsTable(hist)
 
-vars == <<hist, txn, lastTs, clock, maxOid, issued, begun, res, obs>>
+vars == <<hist, txn, lastTs, clock, maxOid, issued, begun, packed, ltid, res, obs>>
 
 Oids == 0..(NOid - 1)
 NoTxn == [owner |-> "none"]
@@ -52,7 +54,7 @@ BeginTidAt(clk) == IF IsFile THEN NewTid(clk, lastTs) ELSE NewTid(clk, LastTid(h
 Init == /\ hist = <<>> /\ txn = NoTxn
         /\ clock = 1
         /\ lastTs = 0        \* FileStorage.__init__: _ts = TimeStamp(last committed tid), z64 when empty
-        /\ maxOid = 0 /\ issued = {} /\ begun = 0
+        /\ maxOid = 0 /\ issued = {} /\ begun = 0 /\ packed = <<0, 0, TRUE>> /\ ltid = 0
         /\ res = OK("open")
         /\ obs = ObsTable(<<>>, Oids)
 
@@ -74,7 +76,7 @@ Begin(c, m, clk) ==
                  staged |-> <<>>, resolved |-> {}, undone |-> <<>>, onlyUndo |-> TRUE]
      /\ lastTs' = IF IsFile THEN t ELSE lastTs
      /\ res' = IF bad THEN Out("begin", "FileStorageError") ELSE OK("begin")
-  /\ UNCHANGED <<hist, maxOid, issued, obs>>
+  /\ UNCHANGED <<hist, maxOid, issued, packed, ltid, obs>>
 
 Active(c) == InTxn(c) /\ txn.phase = "begun"
 Stage(r) == [txn EXCEPT !.staged = Append(@, r), !.onlyUndo = FALSE]
@@ -112,7 +114,7 @@ Store(c, o, serial, d) ==
      ELSE /\ txn' = Fail
           /\ res' = Out("store", "ConflictError")
   /\ maxOid' = IF o > maxOid THEN o ELSE maxOid      \* set_max_oid / the mapping storage's counter
-  /\ UNCHANGED <<hist, lastTs, clock, issued, begun, obs>>
+  /\ UNCHANGED <<hist, lastTs, clock, issued, begun, ltid, packed, obs>>
 
 \* checkCurrentSerialInTransaction: getTid(oid) must equal the serial the client read
 CheckCurrent(c, o, serial) ==
@@ -122,7 +124,7 @@ CheckCurrent(c, o, serial) ==
      IF l.k # "rev" THEN txn' = Fail /\ res' = Out("checkCurrent", "POSKeyError")
      ELSE IF l.serial = serial THEN txn' = txn /\ res' = OK("checkCurrent")
      ELSE txn' = Fail /\ res' = Out("checkCurrent", "ReadConflictError")
-  /\ UNCHANGED <<hist, lastTs, clock, maxOid, issued, begun, obs>>
+  /\ UNCHANGED <<hist, lastTs, clock, maxOid, issued, begun, ltid, packed, obs>>
 
 \* IExternalGC.deleteObject (file only)
 Delete(c, o, serial) ==
@@ -132,7 +134,7 @@ Delete(c, o, serial) ==
      IF cur = 0 THEN txn' = Fail /\ res' = Out("delete", "POSKeyError")
      ELSE IF serial # cur THEN txn' = Fail /\ res' = Out("delete", "ConflictError")
      ELSE txn' = Stage(ZeroRec(o, serial)) /\ res' = OK("delete")
-  /\ UNCHANGED <<hist, lastTs, clock, maxOid, issued, begun, obs>>
+  /\ UNCHANGED <<hist, lastTs, clock, maxOid, issued, begun, ltid, packed, obs>>
 
 (* ------------------------------- undo ---------------------------------- *)
 \* Positions are <<transaction index, record index>>; <<0,0>> is the null position.
@@ -193,7 +195,7 @@ Undo(c, t) ==
           ELSE /\ Len(txn.staged) + Len(u.out) <= MaxRecs + 2
                /\ txn' = [txn EXCEPT !.staged = @ \o u.out, !.undone = Append(@, t)]
                /\ res' = [call |-> "undo", out |-> "ok", oids |-> {u.out[j].oid : j \in 1..Len(u.out)}]
-  /\ UNCHANGED <<hist, lastTs, clock, maxOid, issued, begun, obs>>
+  /\ UNCHANGED <<hist, lastTs, clock, maxOid, issued, begun, ltid, packed, obs>>
 
 \* restore(oid, this-tid, data | None, prev_txn): no consistency checks (copy / recovery path)
 Restore(c, o, d, prev) ==
@@ -207,13 +209,13 @@ Restore(c, o, d, prev) ==
   /\ prev \in {0} \cup TidsOf(hist)
   /\ res' = OK("restore")
   /\ maxOid' = IF o > maxOid THEN o ELSE maxOid
-  /\ UNCHANGED <<hist, lastTs, clock, issued, begun, obs>>
+  /\ UNCHANGED <<hist, lastTs, clock, issued, begun, ltid, packed, obs>>
 
 Vote(c) ==
   /\ Active(c)
   /\ txn' = [txn EXCEPT !.phase = "voted"]
   /\ res' = [call |-> "vote", out |-> "ok", oids |-> txn.resolved]
-  /\ UNCHANGED <<hist, lastTs, clock, maxOid, issued, begun, obs>>
+  /\ UNCHANGED <<hist, lastTs, clock, maxOid, issued, begun, ltid, packed, obs>>
 
 Finish(c) ==
   /\ InTxn(c) /\ txn.phase = "voted"
@@ -221,20 +223,22 @@ Finish(c) ==
   /\ obs' = ObsTable(hist', Oids)
   /\ txn' = NoTxn
   /\ res' = [call |-> "finish", out |-> "ok", tid |-> txn.tid]
+  /\ packed' = IF txn.tid <= packed[1] THEN <<packed[1], packed[2], FALSE>> ELSE packed
+  /\ ltid' = txn.tid
   /\ UNCHANGED <<lastTs, clock, maxOid, issued, begun>>
 
 Abort(c) ==
   /\ InTxn(c)
   /\ txn' = NoTxn
   /\ res' = OK("abort")
-  /\ UNCHANGED <<hist, lastTs, clock, maxOid, issued, begun, obs>>
+  /\ UNCHANGED <<hist, lastTs, clock, maxOid, issued, begun, ltid, packed, obs>>
 
 \* a call made with a transaction that is not the one in two-phase commit
 Wrong(call) ==
   /\ call \in {"store", "vote", "finish", "abort", "undo", "checkCurrent", "delete"}
   /\ (call \in {"undo", "delete"} => IsFile)
   /\ res' = Out("wrong-" \o call, IF call = "abort" THEN "ok" ELSE "StorageTransactionError")
-  /\ UNCHANGED <<hist, txn, lastTs, clock, maxOid, issued, begun, obs>>
+  /\ UNCHANGED <<hist, txn, lastTs, clock, maxOid, issued, begun, ltid, packed, obs>>
 
 (* ------------------------------ oids, clock ---------------------------- *)
 NewOid ==
@@ -242,7 +246,7 @@ NewOid ==
   /\ maxOid' = maxOid + 1
   /\ issued' = issued \cup {maxOid + 1}
   /\ res' = [call |-> "new_oid", out |-> "ok", oid |-> maxOid + 1]
-  /\ UNCHANGED <<hist, txn, lastTs, clock, begun, obs>>
+  /\ UNCHANGED <<hist, txn, lastTs, clock, begun, ltid, packed, obs>>
 
 
 \* close and reopen (file: _ts = last committed tid; _oid = largest oid on file)
@@ -252,7 +256,26 @@ CloseReopen ==
   /\ maxOid' = IF OidsOf(hist) = {} THEN 0 ELSE MaxS(OidsOf(hist))
   /\ issued' = {}
   /\ res' = OK("reopen")
-  /\ UNCHANGED <<hist, txn, clock, begun, obs>>
+  /\ ltid' = LastTid(hist)
+  /\ UNCHANGED <<hist, txn, clock, begun, packed, obs>>
+
+\* pack(t): the pack time is given in seconds, so T = "end of second sec" (every tid of that second is <= T)
+PackT(sec) == sec * K + K - 1
+Pack(sec, gc) ==
+  /\ txn = NoTxn /\ sec \in 0..(MaxClock + 1)
+  /\ LET T == PackT(sec)
+         r == IF OidsOf(hist) = {} THEN [out |-> "empty", h |-> hist]
+              ELSE IF IsFile THEN FilePack(hist, T, gc) ELSE MappingPack(hist, T, gc, packed[1])
+     IN /\ (~IsFile /\ gc) => r.out # "KeyError"      \* (a failing mapping pack is outside the model, DESIGN 6/C07)
+        /\ hist' = r.h
+        /\ obs' = ObsTable(hist', Oids)
+        \* packed = <<last pack time, last pack time with garbage collection, "no commit at or below it since">>
+        /\ packed' = IF r.out \in {"ok", "nothing-freed", "redundant"}
+                      THEN <<IF T > packed[1] THEN T ELSE packed[1], IF gc /\ T > packed[2] THEN T ELSE packed[2],
+                             IF T >= packed[1] THEN TRUE ELSE packed[3]>>
+                      ELSE packed
+        /\ res' = [call |-> "pack", out |-> r.out, T |-> T, gc |-> gc]
+  /\ UNCHANGED <<txn, lastTs, clock, maxOid, issued, begun, ltid>>
 
 SerialRange == {0} \cup {c * K + b : c \in 1..(MaxClock + 1), b \in 0..(MaxTxn + 1)}   \* every tid the model can produce
 WrongCalls == {"store", "vote", "finish", "abort", "undo", "checkCurrent", "delete"}
@@ -271,7 +294,6 @@ Next ==
   \/ \E call \in WrongCalls : Wrong(call)
   \/ NewOid
   \/ CloseReopen
-
 \* sub-relations used to direct simulation (uniform random walks waste their depth on
 \* begin/abort cycles and rejected calls)
 AbortFailed(c) == txn.owner = c /\ txn.phase = "failed" /\ Abort(c)
@@ -290,6 +312,17 @@ NextCommit ==
   \/ NewOidQ
   \/ CloseReopenQ
 EarlyStore(c, o, s, d) == Len(hist) < 3 /\ Store(c, o, s, d)
+\* the actions that matter to packing (exhaustive checking of PackPreserves)
+NextWithPack ==
+  \/ \E c \in Client, m \in Metas, clk \in 1..MaxClock : Begin(c, m, clk)
+  \/ \E c \in Client, o \in Oids, s \in SerialRange, d \in Datums : Store(c, o, s, d)
+  \/ \E c \in Client, o \in Oids, s \in SerialRange : DeleteQ(c, o, s)
+  \/ \E c \in Client, t \in SerialRange : Undo(c, t)
+  \/ \E c \in Client : Vote(c)
+  \/ \E c \in Client : Finish(c)
+  \/ \E c \in Client : AbortFailed(c)
+  \/ \E sec \in 0..(MaxClock + 1), gc \in BOOLEAN : Pack(sec, gc)
+
 \* abort-heavy: like NextCommit, plus an abort after the vote and after some stores
 AbortVoted(c) == txn.owner = c /\ txn.phase = "voted" /\ Abort(c)
 AbortStaged(c) == txn.owner = c /\ txn.phase = "begun" /\ Len(txn.staged) >= 2 /\ Abort(c)
@@ -314,6 +347,18 @@ NextResolve ==
   \/ \E c \in Client : Finish(c)
   \/ \E c \in Client : AbortFailed(c)
   \/ CloseReopenQ
+\* pack heavy: a few commits (with references), packs at every time with gc on/off, then more commits and undos
+PackQ(sec, gc) == res.call \in {"finish", "pack", "reopen"} /\ Len(hist) >= 2 /\ Pack(sec, gc)
+NextPack ==
+  \/ \E c \in Client, m \in Metas, clk \in 1..MaxClock : Begin(c, m, clk)
+  \/ \E c \in Client, o \in Oids, s \in SerialRange, d \in Datums : Store(c, o, s, d)
+  \/ \E c \in Client, o \in Oids, s \in SerialRange : DeleteQ(c, o, s)
+  \/ \E c \in Client, t \in SerialRange : Undo(c, t)
+  \/ \E c \in Client : Vote(c)
+  \/ \E c \in Client : Finish(c)
+  \/ \E c \in Client : AbortFailed(c)
+  \/ \E sec \in 0..(MaxClock + 1), gc \in BOOLEAN : PackQ(sec, gc)
+  \/ CloseReopenQ
 \* oid-allocation heavy: stores and restores of arbitrary (also never issued) oids, aborts, reopen
 RestoreAny(c, o, d) == Restore(c, o, d, 0)
 NextOid ==
@@ -336,7 +381,7 @@ NextUndo ==
   \/ CloseReopenQ
 
 Spec == Init /\ [][Next]_vars
-View == <<hist, txn, lastTs, clock, maxOid, issued, begun>>
+View == <<hist, txn, lastTs, clock, maxOid, issued, begun, packed, ltid>>
 
 (* ------------------------------ properties ----------------------------- *)
 TypeOK == /\ txn = NoTxn \/ txn.phase \in {"begun", "voted", "failed"}
@@ -370,9 +415,19 @@ AbortRestores == [][(res'.out # "ok" \/ res'.call = "abort") => (hist' = hist /\
 OnlyFinishChangesHistory == [][hist' # hist => res'.call = "finish"]_vars
 WrongTxnNoEffect == [][(res'.call \in {"wrong-store", "wrong-vote", "wrong-finish", "wrong-abort", "wrong-undo",
                                         "wrong-checkCurrent", "wrong-delete"})
-                        => UNCHANGED <<hist, txn, obs, lastTs, maxOid>>]_vars
+                        => UNCHANGED <<hist, txn, packed, obs, lastTs, maxOid>>]_vars
 \* after any abort the next transaction can begin (no lock left behind)
 NextCanBegin == [][res'.call = "abort" => txn' = NoTxn]_vars
+
+\* C07: a pack changes nothing observable at or after the pack time, removes only what it may, and a pack
+\* that fails, is redundant or frees nothing leaves the history untouched
+PackPreserves ==
+  [][res'.call = "pack" =>
+       IF res'.out = "ok" THEN PackOK(hist, hist', res'.T) ELSE hist' = hist]_vars
+\* packing again to the same or an earlier time changes nothing
+RepackChangesNothing ==
+  [][(res'.call = "pack" /\ res.call = "pack" /\ res.out \in {"ok", "nothing-freed", "redundant", "same-time"}
+        /\ res'.gc = res.gc /\ res'.T <= res.T) => hist' = hist]_vars
 
 \* C20: new_oid never returns an oid issued before in this session or present in the storage
 OidFresh == [][res'.call = "new_oid" => (res'.oid \notin issued /\ res'.oid \notin OidsOf(hist))]_vars
